@@ -6,8 +6,10 @@ From Tangelo Require Import Num.Show Linq.GateModel Linq.CircuitModel Linq.Histo
 Import ListNotations.
 Open Scope string_scope.
 
-Definition zsmall (m k : Z) : bool := Z.eqb (Z.abs k mod m) 0.
-Definition zeqmod (m a b : Z) : bool := Z.eqb (a mod m) (b mod m).
+(* m = the short modulus (2*pi), ml = the long one (4*pi), both in units of pi/8 *)
+Definition zsmall (m ml : Z) (long : bool) (k : Z) : bool := Z.eqb (Z.abs k mod (if long then ml else m)) 0.
+Definition zeqmod (m ml : Z) (long : bool) (a b : Z) : bool :=
+  Z.eqb (a mod (if long then ml else m)) (b mod (if long then ml else m)).
 
 Definition zgate := pgate Z.
 Definition zcirc := circ Z.
@@ -23,7 +25,7 @@ Definition show_gates (l : list zgate) : string := join " " (map show_gate l).
 
 Section Inst.
   Variable T : tables.
-  Variable mS mE : Z.
+  Variable mS mSl mE mEl : Z.
   Variable mpi2 mpi4 : Z.
 
   Definition show_circ (c : zcirc) : string :=
@@ -42,10 +44,10 @@ Section Inst.
             | IndexError => "IndexError" | KeyError => "KeyError" end.
   Definition show_outcome (o : res unit) : string := match o with Ok _ => "Ok" | Err e => "Err:" ++ show_err e end.
 
-  Definition zstep := step Z Z.add Z.opp (zsmall mS) (zeqmod mE) mpi2 mpi4 T.
+  Definition zstep := step Z Z.add Z.opp (zsmall mS mSl) (zeqmod mE mEl) mpi2 mpi4 T.
   Definition zrun (ops : list (op Z)) : string :=
     join " ## " (map (fun so => show_outcome (snd so) ++ " " ++ join " ; " (map show_circ (fst so)))
-                     (run_hist Z Z.add Z.opp (zsmall mS) (zeqmod mE) mpi2 mpi4 T [] ops)).
+                     (run_hist Z Z.add Z.opp (zsmall mS mSl) (zeqmod mE mEl) mpi2 mpi4 T [] ops)).
 End Inst.
 
 (* constructors with short names for generated case files *)
